@@ -10,11 +10,12 @@ OBLIGATIONS = [
     ob("writebytes_small", ["K_WRITEBYTES", "LMIN=1", "LMAX=8"], ["WriteBytes", "FlushBuffer", "DreheCodes", "NewRecord", "WrRecHeader"],
        "line 1..8 bytes, granularity 1/2/4, CodeBufferFill 0..511, LenSoFar 0..65535, RecPos up to 2^28, TurnWords on/off; witness offset arbitrary",
        unwind=12, timeout=900),
-    ob("writebytes_large", ["K_WRITEBYTES", "LMIN=504", "LMAX=520", "NO_TURN"], ["WriteBytes", "FlushBuffer", "NewRecord"],
-       "line 504..520 bytes (straddles the 512-byte buffer), no endian turn", unwind=530, timeout=1800, tier="thorough"),
     ob("writebytes_buf16", ["K_WRITEBYTES", "LMIN=1", "LMAX=24", "CBS_LMAX_DIRECT=16"], ["WriteBytes", "FlushBuffer", "DreheCodes", "NewRecord", "WrRecHeader"],
        "output buffer shrunk from 512 to 16 bytes (source substitution of the #define): line 1..24 bytes covering the buffered, flush and write-through paths, granularity 1/2/4, TurnWords on/off",
        subst={"asmcode.c": [("#define CodeBufferSize 512", "#define CodeBufferSize 16")]}, unwind=28, timeout=1500),
+    ob("writebytes_buf32", ["K_WRITEBYTES", "LMIN=1", "LMAX=48", "CBS_LMAX_DIRECT=32"], ["WriteBytes", "FlushBuffer", "DreheCodes", "NewRecord", "WrRecHeader"],
+       "output buffer shrunk from 512 to 32 bytes: line 1..48 bytes, granularity 1/2/4, TurnWords on/off",
+       subst={"asmcode.c": [("#define CodeBufferSize 512", "#define CodeBufferSize 32")]}, unwind=52, timeout=3000, tier="thorough", mem_gb=24),
     ob("newrecord", ["K_NEWRECORD"], ["NewRecord", "WrRecHeader", "FlushBuffer"], "arbitrary I-state, arbitrary new start address", unwind=10),
     ob("openfile", ["K_OPEN"], ["OpenFile", "NewRecord", "WrRecHeader"], "arbitrary CPU id/segment/granularity/PC", unwind=10),
     ob("closefile", ["K_CLOSE"], ["CloseFile", "NewRecord"], "arbitrary I-state, with and without entry address", unwind=10),
